@@ -337,6 +337,14 @@ struct Gen {
 				break;
 			}
 			case O_CTOR_COPY: case O_CTOR_COPY_ALLOC: case O_CTOR_MOVE: case O_CTOR_MOVE_ALLOC: case O_ASSIGN_COPY: case O_ASSIGN_MOVE: case O_SWAP: {
+				if(o.kind == O_CTOR_MOVE && T.static_arrays && rng.chance(1, 3)) {  // a static array from a moved resizable array (built by the harness on arena o.ar)
+					o.var = 1;
+					o.nx  = D;
+					for(int k = 0; k < D; ++k) o.x[k] = rng.range(1, std::max(1, std::min(4, maxext)));
+					o.ar = rarena();
+					o.v  = rval();
+					break;
+				}
 				o.b = alive_slot(D);
 				if(o.b < 0 || o.b == o.a) continue;
 				if((o.kind == O_ASSIGN_COPY || o.kind == O_ASSIGN_MOVE || o.kind == O_SWAP) && rng.chance(1, 2)) {
